@@ -13,7 +13,11 @@ Inductive op22 :=
 | O2Send (now dp pf ps prio sa : Z) (data : pl) (tl ff : Z)
 | O2Notify (now id : Z) (data : list Z)
 | O2Listener (now id : Z) (ext remote err : bool) (data : list Z)
-| O2Job (now elapsed : Z).
+| O2Job (now elapsed : Z)
+(* operations of a controller application on an FD stack: the CA is the one of the base node *)
+| O2CaStart (i : nat) (now delay : Z)
+| O2CaStop (i : nat)
+| O2CaSendMsg (i : nat) (prio pgn : Z) (data : pl).
 Inductive ev22 := B2 (o : op22) | C2.
 
 Definition onbase (m : node22) (f : node -> node) : act node22 := Done (with_base m (f (base m))) 0.
@@ -40,6 +44,9 @@ Definition handler22 (o : op22) (m : node22) : act node22 :=
                     | Raise s e => Raise s e
                     | Emit s o k => Emit s o (fun s' => clamp (k s'))
                     end) (job_iter22 m now)
+  | O2CaStart i now delay => onbase m (fun n => ca_start n i now delay)
+  | O2CaStop i => onbase m (fun n => ca_stop n i)
+  | O2CaSendMsg i prio pgn d => lift m (ca_send_message (base m) i prio pgn (pl_bytes d)) (fun m' r => Done m' r)
   end.
 
 Definition summary22 (m : node22) : list Z :=
